@@ -59,7 +59,7 @@ Put(f, k, v) == [x \in DOMAIN f \cup {k} |-> IF x = k THEN v ELSE f[x]]
 (* DupRefused: while any HTLC of the id is unresolved a second send is refused. *)
 SSend(node, pid, hash, amt, nparts, fixed, res) ==
   /\ (res = "ok" /\ pid \in Pids) => ~InFlight(pid)
-  /\ pidOf' = Put(pidOf, hash, pid)
+  /\ pidOf' = IF res = "ok" THEN Put(pidOf, hash, pid) ELSE pidOf
   /\ IF res = "ok"
      THEN pay' = Put(pay, pid, [node |-> node, hash |-> hash, amt |-> amt, nparts |-> nparts, fixed |-> fixed,
                                  gen |-> IF pid \in Pids THEN pay[pid].gen + 1 ELSE 1, term |-> "none", fee |-> -1, rep |-> FALSE, dead |-> FALSE, initf |-> 0,
